@@ -12,6 +12,7 @@ for d in seeded/${1:-*}/; do
   # two changes are, by design, reported by the property that owns the broken behaviour
   case "$n" in
     C01c-*) chk=C03 ;;
+    C04h-*) chk=C01 ;;
     C10b-*|C10c-*) chk=C12 ;;
     C10d-*|C10e-*) chk=C13 ;;
     C18e-*) chk=C03 ;;
